@@ -298,8 +298,9 @@ theorem closeLoop_sound (deps : Nat → List Nat) (roots : List Nat) (fuel : Nat
     simp only [closeLoop]
     split
     · exact ha
-    · have hnx : ∀ t ∈ (queue.flatMap deps).eraseDups, Reach deps roots t := by
+    · have hnx : ∀ t ∈ (queue.flatMap deps).eraseDups.filter (· ∉ all), Reach deps roots t := by
         intro t ht
+        have ht := (List.mem_filter.1 ht).1
         rw [List.mem_eraseDups, List.mem_flatMap] at ht
         obtain ⟨q, hq', hd⟩ := ht
         exact Reach.step (hq q hq') hd
@@ -307,18 +308,13 @@ theorem closeLoop_sound (deps : Nat → List Nat) (roots : List Nat) (fuel : Nat
       intro t ht
       rcases List.mem_append.1 ht with ht | ht
       · exact ha t ht
-      · exact hnx t (List.mem_filter.1 ht).1
+      · exact hnx t ht
 
 /-- **Every collected task is one of the job's tasks or a transitive dependency.** -/
 theorem close_sound (deps : Nat → List Nat) (fuel : Nat) (tasks : List Nat) :
     ∀ t ∈ closeDeps deps fuel tasks, Reach deps tasks t := by
   apply closeLoop_sound
   all_goals (intro t ht; exact Reach.root (by simpa [List.mem_eraseDups] using ht))
-
-/-- a task at distance `n` from the roots -/
-inductive ReachN (deps : Nat → List Nat) (roots : List Nat) : Nat → Nat → Prop
-  | root {t} : t ∈ roots → ReachN deps roots 0 t
-  | step {n t d} : ReachN deps roots n t → d ∈ deps t → ReachN deps roots (n + 1) d
 
 theorem closeLoop_mono (deps : Nat → List Nat) (fuel : Nat) (queue all : List Nat) :
     ∀ t ∈ all, t ∈ closeLoop deps fuel queue all := by
@@ -331,63 +327,124 @@ theorem closeLoop_mono (deps : Nat → List Nat) (fuel : Nat) (queue all : List 
     · exact h
     · exact ih _ _ t (List.mem_append_left _ h)
 
-theorem closeLoop_complete (deps : Nat → List Nat) (fuel : Nat) (queue all : List Nat)
-    (hqa : ∀ t ∈ queue, t ∈ all) (k : Nat) (hk : k ≤ fuel) :
-    ∀ t, ReachN deps queue k t → t ∈ closeLoop deps fuel queue all := by
-  induction k generalizing fuel queue all with
-  | zero =>
-    intro t ht
-    cases ht with
-    | root h => exact closeLoop_mono deps fuel queue all t (hqa t h)
-  | succ k ih =>
-    intro t ht
-    -- peel the *first* step: t is at distance k from the next queue
-    have hfirst : ∀ (n : Nat) (t : Nat), ReachN deps queue (n + 1) t →
-        ReachN deps ((queue.flatMap deps).eraseDups) n t := by
-      intro n
-      induction n with
-      | zero =>
-        intro t ht
-        cases ht with
-        | step h0 hd =>
-          cases h0 with
-          | root hr => exact ReachN.root (by rw [List.mem_eraseDups, List.mem_flatMap]; exact ⟨_, hr, hd⟩)
-      | succ n ihn =>
-        intro t ht
-        cases ht with
-        | step h0 hd => exact ReachN.step (ihn _ h0) hd
-    have h' := hfirst k t ht
-    match fuel, hk with
-    | f + 1, hk =>
-      simp only [closeLoop]
-      split
-      · rename_i he
-        -- empty queue: nothing is reachable in ≥ 1 steps
-        exfalso
-        have : queue = [] := by simpa using he
-        subst this
-        have : ∀ n t, ¬ ReachN deps [] n t := by
-          intro n
-          induction n with
-          | zero => intro t h; cases h with | root h => simp at h
-          | succ n ihn => intro t h; cases h with | step h0 _ => exact ihn _ h0
-        exact this _ _ ht
-      · apply ih f _ _ ?_ (by omega) t h'
-        intro x hx
-        by_cases hxa : x ∈ all
-        · exact List.mem_append_left _ hxa
-        · exact List.mem_append_right _ (List.mem_filter.2 ⟨hx, by simpa using hxa⟩)
+theorem closeLoop_empty (deps : Nat → List Nat) (fuel : Nat) (all : List Nat) : closeLoop deps fuel [] all = all := by
+  cases fuel <;> simp [closeLoop]
 
-/-- **Every transitive hard or soft dependency is collected** (given enough rounds: `fuel` at least the length of
-the longest dependency chain; the driver uses the number of tasks). -/
-theorem close_complete (deps : Nat → List Nat) (fuel : Nat) (tasks : List Nat) (k : Nat) (hk : k ≤ fuel)
-    (t : Nat) (h : ReachN deps tasks k t) : t ∈ closeDeps deps fuel tasks := by
-  have hroots : ∀ n t, ReachN deps tasks n t → ReachN deps tasks.eraseDups n t := by
-    intro n
-    induction n with
-    | zero => intro t h; cases h with | root h => exact ReachN.root (by simpa [List.mem_eraseDups] using h)
-    | succ n ih => intro t h; cases h with | step h0 hd => exact ReachN.step (ih _ h0) hd
-  exact closeLoop_complete deps fuel _ _ (fun _ h => h) k hk t (hroots k t h)
+/-- a duplicate-free list inside `U` is not longer than `U` -/
+theorem nodup_length_le {l U : List Nat} (hnd : l.Nodup) (hsub : ∀ t ∈ l, t ∈ U) : l.length ≤ U.length := by
+  induction l generalizing U with
+  | nil => simp
+  | cons a l ih =>
+    have ha : a ∈ U := hsub a (by simp)
+    have hnd' := List.nodup_cons.1 hnd
+    have := ih (U := U.erase a) hnd'.2 (by
+      intro t ht
+      have htU := hsub t (by simp [ht])
+      have hne : t ≠ a := fun e => hnd'.1 (e ▸ ht)
+      exact (List.mem_erase_of_ne hne).2 htU)
+    rw [List.length_erase_of_mem ha] at this
+    have hpos : 0 < U.length := List.length_pos_of_mem ha
+    simp only [List.length_cons]
+    omega
+
+/-- The loop invariant ("everything collected so far is closed under dependencies, except for the tasks still in the
+queue") and the termination measure (every round with a non-empty queue that is not the last one collects a new task,
+and the collected tasks are distinct members of the finite set `U`): with more rounds than `U` has tasks, the loop ends
+on a set closed under dependencies. -/
+theorem closeLoop_closed (deps : Nat → List Nat) (roots U : List Nat) (hU : ∀ t, Reach deps roots t → t ∈ U)
+    (fuel : Nat) (queue all : List Nat)
+    (hq : ∀ t ∈ queue, t ∈ all) (hcl : ∀ t ∈ all, t ∉ queue → ∀ d ∈ deps t, d ∈ all)
+    (hr : ∀ t ∈ all, Reach deps roots t) (hnd : all.Nodup) (hf : U.length < fuel + all.length) :
+    ∀ t ∈ closeLoop deps fuel queue all, ∀ d ∈ deps t, d ∈ closeLoop deps fuel queue all := by
+  induction fuel generalizing queue all with
+  | zero =>
+    have := nodup_length_le hnd (fun t ht => hU t (hr t ht))
+    omega
+  | succ n ih =>
+    simp only [closeLoop]
+    split
+    · rename_i he
+      have hqe : queue = [] := by simpa using he
+      subst hqe
+      intro t ht d hd
+      exact hcl t ht (by simp) d hd
+    · -- the invariant after one round
+      have hnx : ∀ t ∈ (queue.flatMap deps).eraseDups.filter (· ∉ all), Reach deps roots t := by
+        intro t ht
+        have ht := (List.mem_filter.1 ht).1
+        rw [List.mem_eraseDups, List.mem_flatMap] at ht
+        obtain ⟨q, hq', hd⟩ := ht
+        exact Reach.step (hr q (hq q hq')) hd
+      have hcl' : ∀ t ∈ all ++ (queue.flatMap deps).eraseDups.filter (· ∉ all),
+          t ∉ (queue.flatMap deps).eraseDups.filter (· ∉ all) →
+          ∀ d ∈ deps t, d ∈ all ++ (queue.flatMap deps).eraseDups.filter (· ∉ all) := by
+        intro t ht hnt d hd
+        have hta : t ∈ all := by
+          rcases List.mem_append.1 ht with h | h
+          · exact h
+          · exact absurd h hnt
+        by_cases htq : t ∈ queue
+        · by_cases hda : d ∈ all
+          · exact List.mem_append_left _ hda
+          · refine List.mem_append_right _ (List.mem_filter.2 ⟨?_, by simpa using hda⟩)
+            rw [List.mem_eraseDups, List.mem_flatMap]
+            exact ⟨t, htq, hd⟩
+        · exact List.mem_append_left _ (hcl t hta htq d hd)
+      have hnd' : (all ++ (queue.flatMap deps).eraseDups.filter (· ∉ all)).Nodup := by
+        rw [List.nodup_append]
+        refine ⟨hnd, (nodup_eraseDups _).filter _, ?_⟩
+        intro a ha b hb
+        simp only [List.mem_filter, decide_eq_true_eq] at hb
+        intro e; subst e; exact hb.2 ha
+      have hr' : ∀ t ∈ all ++ (queue.flatMap deps).eraseDups.filter (· ∉ all), Reach deps roots t := by
+        intro t ht
+        rcases List.mem_append.1 ht with h | h
+        · exact hr t h
+        · exact hnx t h
+      by_cases hne : (queue.flatMap deps).eraseDups.filter (· ∉ all) = []
+      · -- nothing new: the next round stops
+        rw [hne, closeLoop_empty]
+        rw [hne] at hcl'
+        intro t ht d hd
+        exact hcl' t ht (by simp) d hd
+      · apply ih _ _ (fun t ht => List.mem_append_right _ ht) hcl' hr' hnd'
+        have hpos : 0 < ((queue.flatMap deps).eraseDups.filter (· ∉ all)).length :=
+          List.length_pos_iff.2 hne
+        rw [List.length_append]
+        omega
+
+/-- The collected set is closed under (hard and soft) dependencies: the loop has ended because nothing new was left to
+visit, not because the rounds ran out. -/
+theorem close_closed (deps : Nat → List Nat) (tasks U : List Nat) (hU : ∀ t, Reach deps tasks t → t ∈ U)
+    (fuel : Nat) (hf : U.length < fuel) :
+    ∀ t ∈ closeDeps deps fuel tasks, ∀ d ∈ deps t, d ∈ closeDeps deps fuel tasks := by
+  have hroot : ∀ t ∈ tasks.eraseDups, Reach deps tasks t :=
+    fun t ht => Reach.root (by simpa [List.mem_eraseDups] using ht)
+  have hU' : ∀ t, Reach deps tasks t → t ∈ U := hU
+  apply closeLoop_closed deps tasks U hU' fuel _ _ (fun _ h => h) (fun t ht hn => absurd ht hn) hroot
+    (nodup_eraseDups _)
+  omega
+
+/-- **Every transitive hard or soft dependency is collected**, whatever the shape of the dependencies (cycles
+included), as soon as the number of rounds exceeds the number of tasks that exist (`U` lists them; the driver uses
+the number of task objects + 1, the real loop is unbounded). -/
+theorem close_complete (deps : Nat → List Nat) (tasks U : List Nat) (hU : ∀ t, Reach deps tasks t → t ∈ U)
+    (fuel : Nat) (hf : U.length < fuel) (t : Nat) (h : Reach deps tasks t) : t ∈ closeDeps deps fuel tasks := by
+  induction h with
+  | root hr => exact closeLoop_mono deps fuel _ _ _ (by simpa [List.mem_eraseDups] using hr)
+  | step _ hd ih => exact close_closed deps tasks U hU fuel hf _ ih _ hd
+
+/-- non-vacuity: two tasks that depend on each other (possible with `Task.add_dependency`); the pinned loop never
+ended on this input (defect A30), the repaired one collects both tasks in two rounds. -/
+def cyc2 : Nat → List Nat := fun t => if t = 0 then [1] else if t = 1 then [0] else []
+example : closeDeps cyc2 3 [0] = [0, 1] := by decide
+example : ∀ t, Reach cyc2 [0] t → t ∈ [0, 1] := by
+  intro t h
+  induction h with
+  | root hr => simp at hr; simp [hr]
+  | @step a b _ hd ih =>
+    have : a = 0 ∨ a = 1 := by simpa using ih
+    rcases this with rfl | rfl <;> simp [cyc2] at hd <;> simp [hd]
 
 /-! ### non-vacuity and the pinned code -/
 
